@@ -287,3 +287,68 @@ Example C12_remove_key_run_fixed :
   map_keys (with_kls false base_rcfg) (b_ratio 1 2) =
     Some [(lab_S, [(false, ex "name", VLit c_STRING_TYPE); (false, ex "p", VNonLit)])].
 Proof. intros E. split; [exact (m_keys_third_fixed E) | exact m_keys_half]. Qed.
+
+(** ** Documents with repeated statements.  The run takes a LIST of triples, so
+    a statement written twice is inside every theorem above (keys, shapes and
+    figures are monotone on such documents too).  What a repeated TYPING
+    statement does to the counts is Q7 of Spec/Counts.v / finding C10-F7: both
+    the class size and the occurrences of the features of that node are counted
+    once per statement, consistently, so the two anchors of the property still
+    hold there (the check recounts them on the set of triples).  With
+    [instances_cap] it is different (finding C12-F3): InstanceCapMode counts
+    typing STATEMENTS against the cap, so the repeated statement of node a takes
+    the place of node b -- the class has two nodes, the cap is 2, yet b is not
+    profiled: at threshold 0 the feature (ex:q, xsd:string) observed on b has no
+    key, and at threshold 1 the feature (ex:p, xsd:string) that only one node of
+    the two has is kept. *)
+Definition typed_nodes (g : graph) (c : str) : list str :=
+  fold_left (fun acc t =>
+               match to t with
+               | ON o => if str_eqb (tp t) tau && str_eqb (nid o) c && negb (existsb (str_eqb (nid (ts t))) acc)
+                         then acc ++ [nid (ts t)] else acc
+               | _ => acc
+               end) g [].
+
+Definition with_cap (k : Z) (c : rcfg) : rcfg :=
+  {| r_tau := r_tau c; r_targets := r_targets c; r_ns := r_ns c; r_shapes_ns := r_shapes_ns c; r_cap := k;
+     r_inverse := r_inverse c; r_remove_empty := r_remove_empty c; r_discard_useless := r_discard_useless c;
+     r_keep_less_specific := r_keep_less_specific c; r_all_compliant := r_all_compliant c; r_disable_or := r_disable_or c;
+     r_allow_redundant_or := r_allow_redundant_or c; r_allow_opt := r_allow_opt c;
+     r_disable_exact := r_disable_exact c; r_disable_comments := r_disable_comments c; r_mode := r_mode c |}.
+
+Definition g_rep_cap : graph := [ty "a" "C"; ty "a" "C"; ty "b" "C"; lit "a" "p" "x"; lit "b" "q" "y"].
+
+Lemma C12_repeated_typing_cap_refuted :
+  exists c g,
+    r_cap c = 2%Z /\ typed_nodes g (ex "C") = [ex "a"; ex "b"] /\ In (lit "b" "q" "y") g /\
+    (exists ns s, run_shapes BAlg c thr0 g = inl (ns, s) /\
+       forall sh, In sh s -> ~ In (false, ex "q", VLit c_STRING_TYPE) (map (skey (scfg_of c ns)) (sh_stmts sh))) /\
+    (exists ns s sh, run_shapes BAlg c (fone BAlg) g = inl (ns, s) /\ In sh s /\ sh_n sh = 2%N /\
+       In (false, ex "p", VLit c_STRING_TYPE) (map (skey (scfg_of c ns)) (sh_stmts sh))).
+Proof.
+  exists (with_cap 2 base_rcfg), g_rep_cap.
+  split; [reflexivity|]. split; [vm_compute; reflexivity|].
+  split; [right; right; right; right; left; reflexivity|]. split.
+  - eexists; eexists. split; [vm_compute; reflexivity|].
+    intros sh [<-|[]]. vm_compute. intros [H|[H|[]]]; discriminate H.
+  - eexists; eexists; eexists. split; [vm_compute; reflexivity|].
+    split; [left; reflexivity|]. split; [vm_compute; reflexivity|].
+    vm_compute. right; left; reflexivity.
+Qed.
+Print Assumptions C12_repeated_typing_cap_refuted.
+
+(** the same document without the cap: both anchors hold (the repeated statement of a is counted
+    twice in the class size AND in the occurrences: 3 "instances", ex:p on 2 of them) *)
+Example C12_repeated_typing_nocap :
+  (exists ns s sh, run_shapes BAlg base_rcfg thr0 g_rep_cap = inl (ns, s) /\ In sh s /\ sh_n sh = 3%N /\
+     In (false, ex "q", VLit c_STRING_TYPE) (map (skey (scfg_of base_rcfg ns)) (sh_stmts sh))) /\
+  (exists ns s, run_shapes BAlg base_rcfg (fone BAlg) g_rep_cap = inl (ns, s) /\
+     forall sh, In sh s -> ~ In (false, ex "p", VLit c_STRING_TYPE) (map (skey (scfg_of base_rcfg ns)) (sh_stmts sh))).
+Proof.
+  split.
+  - eexists; eexists; eexists. split; [vm_compute; reflexivity|].
+    split; [left; reflexivity|]. split; [vm_compute; reflexivity|]. vm_compute. auto.
+  - eexists; eexists. split; [vm_compute; reflexivity|].
+    intros sh [<-|[]]. vm_compute. intros [H|[]]; discriminate H.
+Qed.
+Print Assumptions C12_repeated_typing_nocap.
